@@ -17,6 +17,9 @@ def plan(tier, seed):
     jobs.append(ch("C17", F, "h_slice_dtypes", t, ["api.ParquetFile.__getitem__", "api.ParquetFile.__getstate__",
                                                    "api.ParquetFile.__setstate__", "api.ParquetFile._dtypes"]))
     jobs.append(ch("C17", "vf/pyshim/h_c17.py", "h_time_dtype", t if "C17" == "C17" else (90 if tier == "quick" else 300), ["api.ParquetFile._dtypes (timestamp branch)", "api.ParquetFile.__getstate__", "api.ParquetFile.__setstate__", "api.ParquetFile.pre_allocate"]))
+    # the columns a read returns are the ones its own arguments name (one list object used for several reads)
+    jobs.append(ch("C17", "vf/pyshim/h_c06.py", "h_columns_arg", t, ["api.ParquetFile.to_pandas",
+                                                                    "api.ParquetFile._get_index"]))
     jobs.append(ch("C17", "vf/pyshim/h_c17.py", "h_time_index", t, ["api.ParquetFile.pre_allocate", "api._pre_allocate"]))
     jobs.append(ch("C17", "vf/pyshim/h_c17.py", "h_cat_order_flags", 90, ["api.ParquetFile.pre_allocate", "dataframe.empty (categorical placeholders)"]))
     from . import cats
